@@ -25,127 +25,150 @@ def _only_atom(e, pname):
     return e[0] == "param" and e[2] == pname
 
 
-def rules(rep, prog):
-    f = prog.fn_by_name("crop_box::CropBox::fit_src_into_dst_size")
-    rep.touch(f)
-    sym = Sym(f)
-    r_axis, r_clamp, r_span = "C15.axis", "C15.clamp", "C15.full-span"
-    rep.rule(r_axis, "the crop box returned by fit_src_into_dst_size has left = (width margin) * "
-             "centering.0 and top = (height margin) * centering.1: left does not depend on "
-             "centering.1 or the height margin and vice versa")
-    rep.rule(r_clamp, "both centering factors are derived through clamp(0.0, 1.0) (or are the "
-             "constants of the default)")
-    rep.rule(r_span, "on each of the three ratio branches crop_width is the source width or "
-             "crop_height is the source height")
-    # returned aggregates of CropBox
-    aggs = []
+def box_variants(f, sym):
+    """the CropBox aggregates of f with computed margins, one variant per consistent choice of
+    the definitions of the multi-definition locals they depend on (tuples assigned in the
+    branches of an if / match): [(fields dict, facts, loc)], fully expanded"""
+    from ..engines.formulas import _locals_in, _project, _consistent
+    from ..engines.validators import subst as esubst
+    out = []
     for b, blk in enumerate(f.blocks):
         if blk["c"]:
             continue
         for j, st in enumerate(blk["s"]):
-            if st[0] == "a" and st[2][0] == "agg" and st[2][1] == "adt" and \
-                    st[2][2].endswith("crop_box::CropBox"):
-                aggs.append((b, j, st))
-    rep.floor(r_axis, "CropBox aggregates", len(aggs), 2)
-    cent = [i for i, l in enumerate(f.locals) if l[1] == "centering" and i > f.arg_count]
-    for (b, j, st) in aggs:
-        names = ["left", "top", "width", "height"]
-        ops = {nm: sym.operand(o, (b, j)) for nm, o in zip(names, st[2][4])}
-        if ops["left"] == ("const", 0.0, "f64") and ops["top"] == ("const", 0.0, "f64"):
-            rep.ok(r_axis, "degenerate", st[3], "zero-size input: full source")
-            continue
-
-        def cent_idx(e):
-            out = set()
-
-            def walk(x):
-                if not isinstance(x, tuple):
-                    return
-                if x and x[0] == "field" and isinstance(x[2], int) and \
-                        "centering" in fmt(x[1]):
-                    out.add(x[2])
-                for y in x:
-                    if isinstance(y, tuple):
-                        walk(y)
-            walk(e)
-            return out
-        li, ti = cent_idx(ops["left"]), cent_idx(ops["top"])
-        ls, ts = fmt(ops["left"]), fmt(ops["top"])
-        ok_l = li == {0} and "crop_width" in ls and "crop_height" not in ls
-        ok_t = ti == {1} and "crop_height" in ts and "crop_width" not in ts
-        if ok_l:
-            rep.ok(r_axis, "left", st[3], ls[:100])
-        else:
-            rep.bad(r_axis, "left", st[3], "crop left = %s (uses centering components %s)" % (
-                ls[:140], sorted(li)))
-        if ok_t:
-            rep.ok(r_axis, "top", st[3], ts[:100])
-        else:
-            rep.bad(r_axis, "top", st[3], "crop top = %s (uses centering components %s)" % (
-                ts[:140], sorted(ti)))
-        ws, hs = fmt(ops["width"]), fmt(ops["height"])
-        if "crop_width" in ws and "crop_height" in hs:
-            rep.ok(r_axis, "size", st[3], "width=crop_width height=crop_height")
-        else:
-            rep.bad(r_axis, "size", st[3], "returned size is (%s, %s)" % (ws[:60], hs[:60]))
-    # clamp
-    if len(cent) == 1:
-        ok_all = True
-        details = []
-        for (bb, j, rv, whole) in f.defs().get(cent[0], []):
-            e = sym.rvalue(rv, bb, (bb, j))
-            if e[0] != "agg" or len(e[4]) != 2:
-                ok_all = None
+            if not (st[0] == "a" and st[2][0] == "agg" and st[2][1] == "adt" and
+                    str(st[2][2]).endswith("crop_box::CropBox")):
                 continue
-            for comp in e[4]:
-                c = comp
-                if c[0] == "const" and 0.0 <= c[1] <= 1.0:
+            ops = st[2][4]
+            names = ["left", "top", "width", "height"]
+            e0 = {nm: sym.operand(o, (b, j)) for nm, o in zip(names, ops)}
+            work = [(e0, list(sym.facts_at(b)))]
+            done = []
+            guard = 0
+            while work and guard < 64:
+                guard += 1
+                ex, F = work.pop()
+                multi = None
+                for nm in names:
+                    for a in _locals_in(ex[nm]):
+                        ds = [d for d in f.defs().get(a[1], []) if d[3]]
+                        if len(ds) >= 1 and len(ds) == len(f.defs().get(a[1], [])):
+                            multi = (a, ds)
+                            break
+                    if multi:
+                        break
+                if multi is None:
+                    done.append((ex, F))
                     continue
-                if c[0] == "call" and c[1] == "clamp" and c[2][1] == ("const", 0.0, "f64") \
-                        and c[2][2] == ("const", 1.0, "f64"):
-                    continue
-                ok_all = False
-                details.append(fmt(c)[:80])
-        if ok_all is True:
-            rep.ok(r_clamp, "centering", f.loc, "clamp(0.0, 1.0) on both components")
-        elif ok_all is False:
-            rep.bad(r_clamp, "centering", f.loc, "centering component not clamped to [0,1]: %s"
-                    % details)
+                a, ds = multi
+                keep = [d for d in ds if _consistent(sym.facts_at(d[0]), F)]
+                if not keep:
+                    keep = ds
+                for d in keep:
+                    rv = sym.rvalue(d[2], d[0], (d[0], d[1]))
+                    if rv == a:
+                        done.append((ex, F))
+                        break
+                    ex2 = {nm: _project(esubst(ex[nm], {a: rv})) for nm in names}
+                    work.append((ex2, F + list(sym.facts_at(d[0]))))
+            for ex, F in done:
+                out.append((ex, F, st[3]))
+    return out
+
+
+def _locals_left(e):
+    if not isinstance(e, tuple) or not e:
+        return False
+    if e[0] == "local":
+        return True
+    return any(_locals_left(x) for x in e if isinstance(x, tuple))
+
+
+def rules(rep, prog):
+    import re
+    f = prog.fn_by_name("crop_box::CropBox::fit_src_into_dst_size")
+    rep.touch(f)
+    sym = Sym(f)
+    r_axis, r_clamp, r_span = "C15.axis", "C15.clamp", "C15.full-span"
+    rep.rule(r_axis, "on every path the crop box returned by fit_src_into_dst_size has a left that does "
+             "not depend on centering.1 or the source height and a top that does not depend on "
+             "centering.0 or the source width (the box is evaluated per path: definitions made in the "
+             "branches of an if / match are chosen consistently)")
+    rep.rule(r_clamp, "every use of a component of the caller's centering in the returned box goes "
+             "through clamp(0.0, 1.0)")
+    rep.rule(r_span, "on every path the returned width is the source width or the returned height is "
+             "the source height")
+    variants = box_variants(f, sym)
+    rep.floor(r_axis, "paths to a CropBox", len(variants), 2)
+
+    def cent_uses(e):
+        """[(component index, clamped?)] of the uses of the `centering` parameter in e"""
+        out = []
+
+        def walk(x, clamped):
+            if not isinstance(x, tuple) or not x:
+                return
+            if x[0] in ("call", "callat"):
+                nm = x[1] if x[0] == "call" else x[2]
+                args = x[2] if x[0] == "call" else x[3]
+                if nm == "clamp" and len(args) == 3 and args[1] == ("const", 0.0, "f64") \
+                        and args[2] == ("const", 1.0, "f64"):
+                    walk(args[0], True)
+                    return
+            if x[0] == "field" and str(x[2]).isdigit() and re.search(r"\bcentering\b", fmt(x[1])):
+                # the outermost numeric projection of something derived from the parameter:
+                # (centering as Some).0.k, unwrap_or(centering, ..).k, centering.k
+                out.append((int(str(x[2])), clamped))
+                return
+            for y in x:
+                if isinstance(y, tuple):
+                    walk(y, clamped)
+        walk(e, False)
+        return out
+
+    def mentions(e, name):
+        return re.search(r"\b%s\b" % name, fmt(e)) is not None
+    for k, (ex, F, loc) in enumerate(variants):
+        tag = "#%d" % k
+        if ex["left"] == ("const", 0.0, "f64") and ex["top"] == ("const", 0.0, "f64") and \
+                _only_atom(ex["width"], "src_width") and _only_atom(ex["height"], "src_height"):
+            rep.ok(r_axis, "whole-source" + tag, loc, "full source")
+            rep.ok(r_span, "path" + tag, loc, "full source")
+            continue
+        lu, tu = cent_uses(ex["left"]), cent_uses(ex["top"])
+        bad_l = [i for i, _ in lu if i != 0] or mentions(ex["left"], "src_height")
+        bad_t = [i for i, _ in tu if i != 1] or mentions(ex["top"], "src_width")
+        if bad_l and not mentions(ex["left"], "src_width"):
+            rep.bad(r_axis, "left" + tag, loc, "crop left = %s: depends on the vertical centering / "
+                    "the source height only" % fmt(ex["left"])[:140])
+        elif [i for i, _ in lu if i != 0]:
+            rep.bad(r_axis, "left" + tag, loc, "crop left = %s uses centering.%s" % (
+                fmt(ex["left"])[:140], sorted({i for i, _ in lu})))
         else:
-            # not an aggregate: e.g. `centering.unwrap_or((0.5, 0.5))`
-            exprs = [sym.rvalue(rv, bb, (bb, j)) for (bb, j, rv, whole) in f.defs().get(cent[0], [])]
-            raw = [e for e in exprs if e[0] in ("call", "callat") and "clamp" not in fmt(e)
-                   and any(a[0] == "param" and a[2] == "centering"
-                           for a in (e[2] if e[0] == "call" else e[3]))]
-            if raw and len(raw) == len(exprs):
-                rep.bad(r_clamp, "centering", f.loc, "the centering that scales the margins is %s: "
-                        "the caller's value is used without clamp(0.0, 1.0), so a component outside "
-                        "[0, 1] moves the box out of the source (fit_src_into_dst_size and "
-                        "SrcCropping::FitIntoDestination are public, the builder is not the only "
-                        "way in)" % fmt(raw[0])[:100])
-            else:
-                rep.unk(r_clamp, "centering", f.loc, "shape not recognised")
-    else:
-        rep.unk(r_clamp, "centering", f.loc, "local `centering` not found")
-    # full span
-    cw = [i for i, l in enumerate(f.locals) if l[1] == "crop_width"]
-    ch = [i for i, l in enumerate(f.locals) if l[1] == "crop_height"]
-    if len(cw) == 1 and len(ch) == 1:
-        dw = {bb: sym.rvalue(rv, bb, (bb, j)) for (bb, j, rv, w) in f.defs().get(cw[0], [])}
-        dh = {bb: sym.rvalue(rv, bb, (bb, j)) for (bb, j, rv, w) in f.defs().get(ch[0], [])}
-        rep.floor(r_span, "ratio branches", len(dw), 3)
-        for k, bb in enumerate(sorted(dw)):
-            w, h = dw[bb], dh.get(bb)
-            full_w = _only_atom(w, "src_width")
-            full_h = h is not None and _only_atom(h, "src_height")
-            if full_w or full_h:
-                rep.ok(r_span, "branch#%d" % k, f.loc, "crop = (%s, %s)" % (
-                    fmt(w)[:50], fmt(h)[:50] if h else "?"))
-            else:
-                rep.bad(r_span, "branch#%d" % k, f.loc, "neither dimension spans the source: "
-                        "crop = (%s, %s)" % (fmt(w)[:80], fmt(h)[:80] if h else "?"))
-    else:
-        rep.unk(r_span, "locals", f.loc, "crop_width / crop_height not found")
+            rep.ok(r_axis, "left" + tag, loc, fmt(ex["left"])[:100])
+        if [i for i, _ in tu if i != 1]:
+            rep.bad(r_axis, "top" + tag, loc, "crop top = %s uses centering.%s" % (
+                fmt(ex["top"])[:140], sorted({i for i, _ in tu})))
+        else:
+            rep.ok(r_axis, "top" + tag, loc, fmt(ex["top"])[:100])
+        raw = [i for i, c in lu + tu if not c]
+        if raw:
+            rep.bad(r_clamp, "centering" + tag, loc, "component %s of the caller's centering scales a "
+                    "margin without clamp(0.0, 1.0): a value outside [0, 1] moves the box out of the "
+                    "source (fit_src_into_dst_size and SrcCropping::FitIntoDestination are public, "
+                    "the builder is not the only way in)" % sorted(set(raw)))
+        elif lu or tu:
+            rep.ok(r_clamp, "centering" + tag, loc, "clamp(0.0, 1.0) on every use")
+        else:
+            rep.ok(r_clamp, "centering" + tag, loc, "constants")
+        if _only_atom(ex["width"], "src_width") or _only_atom(ex["height"], "src_height"):
+            rep.ok(r_span, "path" + tag, loc, "crop = (%s, %s)" % (fmt(ex["width"])[:50], fmt(ex["height"])[:50]))
+        elif _locals_left(ex["width"]) or _locals_left(ex["height"]):
+            rep.unk(r_span, "path" + tag, loc, "size (%s, %s) not resolved" % (
+                fmt(ex["width"])[:50], fmt(ex["height"])[:50]))
+        else:
+            rep.bad(r_span, "path" + tag, loc, "neither dimension spans the source: crop = (%s, %s)"
+                    % (fmt(ex["width"])[:80], fmt(ex["height"])[:80]))
     # plumbing
     r_pl = "C15.plumbing"
     rep.rule(r_pl, "ResizeOptions::get_crop_box passes (src.width(), src.height(), dst.width(), "
